@@ -48,6 +48,7 @@ func run(r *vkit.Report) {
 	r.Assume("after stream.Merge first reports an error no further Next is issued: stickiness of the error is not judged")
 	r.Assume("the caller's slice of inputs / destinations belongs to the caller: the functions may read it while they run but must leave the array (the passed window, its spare capacity, its surroundings) as it was")
 	r.Assume("'the goroutines finish after Close' for an input that ignores its context and never ends is decided as bounded progress: Close blocked for >= 15 s (normal: microseconds) while a goroutine started by stream.Merge is running in two dumps 2 s apart, >= 1.5 s of CPU burnt and >= 1000 further values pulled from the input in between; anything less is inconclusive")
+	r.Assume("a channel may have other receivers besides chans.Merge (Go channels allow it and the documentation does not forbid it): Merge must then forward only what it really received; nil channels are not documented and not tried")
 	r.Assume("which of several inputs' OWN errors is 'first' is not judged; but an error an input returned only because the context Merge gave it (or a child of it) was done is not an own error: if an input had failed on its own and the consumer's context is live, one of the own errors must be reported")
 	r.Assume("a Next given a done context by the consumer may return a value, End, an input's error or that context's error: all are accepted, and after the context's error the consumer carries on; what is judged is that nothing is lost or duplicated and the stream still ends as its inputs do")
 	r.Assume("in plans where the consumer uses contexts of its own, failing inputs return only error values that are not identical to context.Canceled / context.DeadlineExceeded, so the consumer can tell the two apart")
@@ -67,6 +68,8 @@ func run(r *vkit.Report) {
 	nEndless := r.Scale(1000, 4000)
 	nGate := r.Scale(640, 2560)
 	nInduced := r.Scale(21000, 63000)
+	nLib := r.Scale(1680, 6720)
+	nShared := r.Scale(4200, 16800)
 
 	r.Cases("regress", nReg, workers, regressCase)
 	r.Cases("chans-merge", nMerge, workers, chansMergeCase)
@@ -77,6 +80,8 @@ func run(r *vkit.Report) {
 	r.Cases("smerge-ctx", nCtx, workers, smergeCtxCase)
 	r.Cases("smerge-endless", nEndless, workers, smergeEndlessCase)
 	r.Cases("smerge-gate", nGate, workers, smergeGateCase)
+	r.Cases("smerge-lib", nLib, workers, smergeLibCase)
+	r.Cases("chans-shared", nShared, workers, chansSharedCase)
 	r.Cases("smerge-induced", nInduced, workers, smergeInducedCase)
 
 	// Coverage floors (all functions of the case lists, not of the schedule).
@@ -101,6 +106,13 @@ func run(r *vkit.Report) {
 		r.Floor("stream.Merge (input, error position) combinations run with error value "+k, r.Table("stream.Merge enumerated error value", k), int64(len(errCombos())))
 	}
 	r.Floor("stream.Merge plans in which the consumer uses done / expiring contexts of its own", r.Table("stream.Merge", "plans with consumer contexts"), int64(nCtx/2))
+	for k := 1; k <= 7; k++ {
+		r.Floor(fmt.Sprintf("stream.Merge whose %d inputs are all stream.Empty()", k), r.Table("stream.Merge over the library's own streams", fmt.Sprintf("all %d inputs stream.Empty()", k)), int64(nLib/4/7/2))
+	}
+	r.Floor("stream.Merge with stream.Empty() at an enumerated position among inputs that finish at once", r.Table("stream.Merge over the library's own streams", "stream.Empty() at an enumerated position"), int64(nLib/8))
+	for _, p := range []string{"range(1)", "merge2", "merge3", "reflect(4)", "reflect(5)", "reflect(7)"} {
+		r.Floor("chans.Merge with buffered inputs shared with a second receiver, code path "+p, r.Table("chans.Merge with shared inputs, path", p), int64(nShared/12))
+	}
 	r.Floor("stream.Merge read to End while every input's Close was blocked", r.Table("stream.Merge", "plans whose inputs' Close blocks until End was seen"), int64(nGate/2))
 	r.Floor("stream.Merge trials: one input fails while child-context inputs are parked", r.Table("stream.Merge one input fails, others parked on a child context", "trials"), 20000)
 	r.Floor("stream.Merge plans with an endless input that ignores its context", r.Table("stream.Merge", "plans with an endless input that ignores its context"), int64(nEndless))
